@@ -3,7 +3,7 @@ from __future__ import annotations
 
 import json
 
-from . import fam_expr, fam_iter, fam_multi, fam_pairs, fam_proc, fam_sql
+from . import fam_expr, fam_iter, fam_multi, fam_pairs, fam_pool, fam_proc, fam_sql
 from .core import Part, open_findings
 
 REGISTRY = {
@@ -25,6 +25,8 @@ REGISTRY = {
         "SQLite cannot parse the parenthesised nested compound selects SQLAlchemy renders for a chain whose operand is a bare chain: such states are compiled but not executed (counted in evidence)"]},
     "C07": {"families": [fam_proc.run, fam_multi.run], "assumptions": [
         "the Processor used is the harness's real one (SQLite temp tables <-> RowSequence); its hooks evaluate the source for real, so 'evaluable by the source engine on its own' is observed, not assumed"]},
+    "C09": {"families": [fam_pool.run], "assumptions": [
+        "histories beyond depth 2-3 are sampled by TLC's simulation mode (seeded by VERIF_SEED), not enumerated"]},
     "C10": {"families": [fam_proc.run], "assumptions": [
         "the leaf below the materializations is a counting lazy payload (iteration-sourced trees); at most one iteration of it over a whole history is the observable form of 'evaluated at most once'"]},
     "C08": {"families": [fam_sql.run, fam_iter.run], "assumptions": ["each occurrence of a leaf table in one query gets its own alias (as a user must do for self-joins)"]},
